@@ -240,6 +240,8 @@ def shape_wells(a, present):
             return tuple(v)
         return v
     v = [[_wid(w) for w in row] for row in a["x"]]
+    if present == "fortran":
+        return np.asfortranarray(np.array(v))
     return np.array(v) if present != "list" else v
 
 
@@ -262,6 +264,8 @@ def shape_vols(a, unit, present, numkind="float"):
             return tuple(v)
         return v
     v = [[one(k) for k in row] for row in a["x"]]
+    if present == "fortran":
+        return np.asfortranarray(np.array(v, dtype=float))
     return np.array(v, dtype=float) if present != "list" else v
 
 
